@@ -95,6 +95,45 @@ def rat_cases(r, n, maxlimbs):
             out.append(f"{op} {gens.show_rat(a)} {gens.show_rat(b)}")
     return out
 
+# ------------------------------------------------------------------ complex layer on raw rational parts
+def cx_cases(r, n, maxlimbs):
+    out = []
+    zero = [(True, [0]), (False, [0, 0]), (False, [0])]
+    while len(out) < n:
+        op = r.choice(["cadd", "cmul", "cdiv"])
+        parts = [gens.raw_rat(r, maxlimbs) for _ in range(4)]
+        for i in range(4):
+            if r.random() < 0.22: parts[i] = (parts[i][0], r.choice(zero), parts[i][2])   # zero parts in every representation: short-cuts, real-only fast path
+        if r.random() < 0.1: parts[2] = parts[0]
+        if r.random() < 0.1: parts[3] = (not parts[1][0], parts[1][1], parts[1][2])        # conjugate pairs
+        out.append(op + " " + " ".join(gens.show_rat(p) for p in parts))
+    return out
+
+def cx_parse(line):
+    ws = line.split(" ")
+    if ws[0] == "err": return ("err", ws[1] if len(ws) > 1 else "?")
+    if ws[0] != "ok" or len(ws) < 4: return ("bad", line)
+    return ("ok", rat_val(gens.parse_rat(ws[1])), rat_val(gens.parse_rat(ws[2])), ws[3])
+
+def cx_canon(a, b, case):
+    return (cx_parse(a), cx_parse(b))
+
+def cx_oracle(case, impl, model):
+    ws = case.split(" ")
+    u, v, x, y = [rat_val(gens.parse_rat(w)) for w in ws[1:5]]
+    if None in (u, v, x, y): return None
+    if ws[0] == "cadd": exp = (u + x, v + y)
+    elif ws[0] == "cmul": exp = (u * x - v * y, u * y + v * x)
+    else:
+        s2 = x * x + y * y
+        exp = None if s2 == 0 else ((u * x + v * y) / s2, (v * x - u * y) / s2)
+    got = cx_parse(impl)
+    if exp is None:
+        return None if got == ("err", "divideByZero") else f"division by 0 + 0i: the only admissible outcome is the division-by-zero error, implementation answered {impl!r}"
+    if got[0] == "ok" and (got[1], got[2]) == exp and got[3] == "exact":
+        return None
+    return f"exact value ({exp[0]}) + ({exp[1]})i expected and flagged exact, implementation answered {impl!r}"
+
 # ------------------------------------------------------------------ API level
 def api_cases(r, n, depth):
     cases, meta = [], []
@@ -146,6 +185,11 @@ def run(ctx):
                     nontrivial=lambda c, a: "L" in c, env=env,
                     what="BigRat add/sub/mul/div/neg/simplify/cmp/pow(integer exponents, incl. negative, unreduced and non-canonical) on raw "
                          "(sign, limbs, limbs) through the hooks; vs Lean model and vs Python Fraction arithmetic (spec)")
+    cl = cx_cases(ctx.rng, 2500 if quick else 20000, 3 if quick else 8)
+    ctx.diff_stream("complex-ops", cl, h, "bigrat", canon=cx_canon, oracle=cx_oracle,
+                    nontrivial=lambda c, a: "L" in c, env=env,
+                    what="Exact<Complex> add / mul / div on four raw rational parts (zero parts in every representation, conjugate pairs, real-only operands) "
+                         "through the hooks; vs the Lean model of complex.rs + the Exact<Real> short-cuts, and vs Gaussian-rational arithmetic in Python (spec)")
     # API level: random Arith trees through fend_core::evaluate
     cases, meta = api_cases(ctx.rng, 1500 if quick else 20000, 5 if quick else 6)
     import time
@@ -179,7 +223,7 @@ def replay(ctx, rep):
     h = ctx.harness()
     f = rep["first"]
     case = f["input"]
-    st = {"biguint-ops": "biguint", "bigrat-ops": "bigrat", "api-trees": "eval"}[f.get("stream", "biguint-ops")]
+    st = {"biguint-ops": "biguint", "bigrat-ops": "bigrat", "complex-ops": "bigrat", "api-trees": "eval"}[f.get("stream", "biguint-ops")]
     print("case :", case)
     print("impl :", ctx.run_lines(h, [st], [case])[1])
     if st != "eval":
